@@ -296,6 +296,17 @@ def classes(c):
     return "prior:%s" % like["tree"]["kind"]
 
 
+# which kind of component owns a batchable leaf (for the root-cause tag of joint failures)
+def leaf_owner(lid):
+    if lid == "gmrf.precision" or lid in ("gprec", "gfield"):
+        return "GMRF"
+    if lid in ("mx", "mloc", "mtril"):
+        return "MultivariateNormal"
+    if lid in ("nx", "loc", "scale", "lx", "lloc", "lscale", "gx", "gconc", "grate", "hrate", "dx", "dconc", "ix", "iconc", "irate", "ox", "pconc", "prate"):
+        return "Distribution"
+    return "other"
+
+
 def body(c):
     spec, dom, targets = build_spec(c)
     leaves = sorted(dom)
@@ -329,7 +340,8 @@ def body(c):
             detail.update(target=t, batched=minimal, classes=cls, sample_shape=ss)
             tcls = t if c["entry"] == "dist" else t
             res.fail("wrong_number" if status == "wrong" else "wrong_shape", detail, target=t, batched=sorted(minimal), bucket="%s[%s]%s" % (tcls, "+".join(sorted(minimal)), "" if c.get("eval_mode", "fresh") == "fresh" else ":" + c["eval_mode"]), eval_mode=c.get("eval_mode", "fresh"),
-                     unbatched=sorted(set(leaves) - set(minimal)), ss_len=len(ss), model=cls, scalar_result=detail.get("result_shape") == [])
+                     unbatched=sorted(set(leaves) - set(minimal)), ss_len=len(ss), model=cls, scalar_result=detail.get("result_shape") == [],
+                     owners="+".join(sorted({leaf_owner(x) for x in minimal})))
     res.labels = tuple(labels)
     return res
 
@@ -389,7 +401,8 @@ def subsets_body(c):
                     detail.update(target=t, batched=list(sub), classes=cls, sample_shape=c["ss"])
                     if not any(f.tags.get("target") == t and set(f.tags["batched"]) <= set(sub) for f in res.fails):
                         res.fail("wrong_number" if status == "wrong" else "wrong_shape", detail, target=t, batched=sorted(sub), bucket="%s[%s]" % (t, "+".join(sorted(sub))),
-                                 unbatched=sorted(set(leaves) - set(sub)), ss_len=len(c["ss"]), model=cls, scalar_result=detail.get("result_shape") == [])
+                                 unbatched=sorted(set(leaves) - set(sub)), ss_len=len(c["ss"]), model=cls, scalar_result=detail.get("result_shape") == [],
+                                 owners="+".join(sorted({leaf_owner(x) for x in sub})))
     res.evals = n
     res.keys = keys
     res.labels = counts
